@@ -1,5 +1,5 @@
 From Coq Require Import List Arith Bool String.
-From Wire Require Import Sets Acyclic Solve Names Front Exec Model Emit ModelThms.
+From Wire Require Import Sets Acyclic Solve Names Front Exec Model Emit Cli ModelThms.
 Import ListNotations.
 
 (* The property theorems.  This file contains nothing but statements closed by [exact lemma] and the
@@ -131,3 +131,68 @@ Theorem C01_one_implementation : forall E inj cs g,
     List.length results = 1 + (if i_cleanup inj then 1 else 0) + (if i_err inj then 1 else 0).
 Proof. exact inject_pass_header. Qed.
 Print Assumptions C01_one_implementation.
+
+(* ------------------------------------------------------------------ C17 *)
+Theorem C17_gen_exit : forall load_err outs f,
+  fst (gen_cmd load_err outs f) = 0 <-> load_err = false /\ forall o, In o outs -> pr_errs o = false.
+Proof. exact gen_exit_zero_iff. Qed.
+Print Assumptions C17_gen_exit.
+
+Theorem C17_gen_footprint : forall load_err outs f p,
+  fs_get (snd (gen_cmd load_err outs f)) p = fs_get f p \/
+  exists o c, In o outs /\ pr_out o = p /\ pr_content o = Some c /\ fs_get (snd (gen_cmd load_err outs f)) p = Some c.
+Proof. exact gen_footprint. Qed.
+Print Assumptions C17_gen_footprint.
+
+Theorem C17_failed_package_untouched : forall load_err outs f o,
+  well_formed outs -> In o outs -> pr_errs o = true ->
+  (forall o', In o' outs -> pr_out o' = pr_out o -> pr_content o' = None) ->
+  fs_get (snd (gen_cmd load_err outs f)) (pr_out o) = fs_get f (pr_out o).
+Proof. exact gen_failed_untouched. Qed.
+Print Assumptions C17_failed_package_untouched.
+
+Theorem C17_failure_does_not_block_others : forall load_err outs f o c,
+  load_err = false -> NoDup (map pr_out outs) -> In o outs -> pr_content o = Some c ->
+  fs_get (snd (gen_cmd load_err outs f)) (pr_out o) = Some c.
+Proof. exact gen_writes_others. Qed.
+Print Assumptions C17_failure_does_not_block_others.
+
+Theorem C17_diff_readonly : forall h l outs f, snd (diff_cmd h l outs f) = f.
+Proof. exact diff_readonly. Qed.
+Print Assumptions C17_diff_readonly.
+
+Theorem C17_diff_exit : forall h l outs f,
+  fst (diff_cmd h l outs f) =
+  if h || l || existsb pr_errs outs then 2
+  else if existsb (fun o => match pr_content o with
+                            | None => false
+                            | Some c => negb (match fs_get f (pr_out o) with Some c' => Nat.eqb c c' | None => false end)
+                            end) outs then 1 else 0.
+Proof. exact diff_exit. Qed.
+Print Assumptions C17_diff_exit.
+
+(* ------------------------------------------------------------------ C18 *)
+Theorem C18_history_independent : forall (content_of : nat -> option nat) ops s0,
+  let s := hrun content_of ops s0 in
+  forall c, content_of (h_variant s) = Some c ->
+    let s1 := fst (hstep content_of s OGen) in
+    snd (hstep content_of s OGen) = 0 /\
+    h_out s1 = h_out (fst (hstep content_of (mkH (h_variant s) None) OGen)) /\
+    fst (hstep content_of s1 OGen) = s1 /\
+    snd (hstep content_of s1 ODiff) = 0.
+Proof. exact history_independent. Qed.
+Print Assumptions C18_history_independent.
+
+Theorem C18_failed_gen_untouched : forall (content_of : nat -> option nat) s,
+  content_of (h_variant s) = None -> fst (hstep content_of s OGen) = s.
+Proof. exact history_failed_gen_untouched. Qed.
+Print Assumptions C18_failed_gen_untouched.
+
+(* ------------------------------------------------------------------ C19 *)
+(* check (parse.go:Load) accepts an injector exactly when gen does, and reports the same diagnostics.
+   (Before fix 42a06b2 Load omitted gen.inject's signature / visibility checks; the model then carried the
+   omission and this statement was refuted by a one-provider witness, see known_findings.json.) *)
+Theorem C19_check_iff_gen : forall tyorder root args out sc se,
+  load_analyze tyorder root args out sc se = analyze tyorder root args out sc se.
+Proof. exact load_vs_gen. Qed.
+Print Assumptions C19_check_iff_gen.
